@@ -339,6 +339,15 @@ def rel_queries(db, prop):
                 qs.append(Query(qid, q['c'], checks=['--no-standard-checks', '--bounds-check', '--pointer-check'], meta=q['meta'], timeout=600))
             except (bx2c.Unsupported, f77c.Unsupported, KeyError) as e:
                 skipped.append((qid, 'NOT COVERED: ' + str(e)[:300]))
+    if prop == 'C02' and not only:
+        import relk
+        for n in sorted(relk._fe_pairs()):
+            try:
+                q = relk.build(db, prog, n, propid='C02')
+                q['meta']['what'] = 'rel'
+                qs.append(Query('rel/k/%s' % n, q['c'], checks=['--no-standard-checks', '--bounds-check', '--pointer-check'], meta=q['meta'], timeout=600))
+            except (bx2c.Unsupported, f77c.Unsupported, KeyError) as e:
+                skipped.append((n, 'NOT COVERED: ' + str(e)[:300]))
     cands = sorted(l3.l3_routines(db).items()) + [(k, 'kernel') for k in KERNELS if k in db['funcs']]
     for name, kind in cands:
         if only and name not in only:
